@@ -20,12 +20,33 @@
 (***************************************************************************)
 EXTENDS TraceLib, Hashring
 
+(* Reload scenarios (in.kind = "reload"): a REAL ConfigWatcher + ConfigFromWatcher watch a temp  *)
+(* file that the harness rewrites following a TLC-generated script (in.script: catalogue ids,   *)
+(* 0 = content that does not load: empty file, broken / truncated JSON, empty list, endpoint     *)
+(* without address; written in place, so the watcher may also see half-written content); every  *)
+(* delivered configuration is built with the real NewMultiHashring and swapped into a holder    *)
+(* (RWMutex, as Handler.Hashring does) while request goroutines keep asking GetN.               *)
+(*   vers[k].entries  the configuration of catalogue id k                                       *)
+(*   writes           contents written, in order (first = content at start)                     *)
+(*   applied          catalogue ids put in force, in order                                      *)
+(*   looks            distinct [ver, aver, aidx, tc]: version in force when the request read    *)
+(*                    the holder; version and index of the hashring whose endpoint answered     *)
+(*                    (aidx 0 = "no matching hashring")                                         *)
+(*   noring           requests that found no hashring after the first one was in force          *)
+(*   final_ok         the last content, if valid, was in force within 60 s (watcher period      *)
+(*                    100 ms)                                                                    *)
+IsReload(e) == "kind" \in DOMAIN e.in /\ e.in.kind = "reload"
+JudgeReload(e) ==
+    C27ReloadClauses(e.writes, e.applied, e.looks, e.noring, e.final_ok,
+                     [v \in DOMAIN e.vers |-> e.vers[v].entries])
+
 Judge(e) ==
-    IF ~e.built THEN {}
+    IF IsReload(e) THEN JudgeReload(e)
+    ELSE IF ~e.built THEN {}
     ELSE UNION { C27Clauses(HSeqRange(e.tn[k].seen), e.entries, e.tn[k].tc) : k \in DOMAIN e.tn }
 
 (* Model conformance (never a verdict): the code takes the first entry in order.  *)
-Drift(e) == e.built /\ \E k \in DOMAIN e.tn :
+Drift(e) == ~IsReload(e) /\ e.built /\ \E k \in DOMAIN e.tn :
                 HSeqRange(e.tn[k].seen) # {RouteFirstInOrder(e.entries, e.tn[k].tc)}
 
 VARIABLE l
